@@ -28,6 +28,11 @@ SK = {
     'model-join-using': ("SELECT t.a, m.p FROM {A}.tbl1 AS t JOIN {M}.pred AS m USING partition_size=7", {'int1': {'tbl1'}}, [('mindsdb', ['pred'])]),
     'model-join-table-using': ("SELECT * FROM {A}.tbl1 AS t JOIN {M}.pred AS m JOIN {B}.tbl2 AS t2 ON t2.id = t.id USING partition_size=5",
                                {'int1': {'tbl1'}, 'int2': {'tbl2'}}, [('mindsdb', ['pred'])]),
+    'cte-join': ("WITH c AS (SELECT b, id FROM {B}.tbl2) SELECT * FROM c JOIN {A}.tbl1 AS t ON c.id = t.id", {'int1': {'tbl1'}, 'int2': {'tbl2'}}, []),
+    'cte-model-join': ("WITH c AS (SELECT b, id FROM {B}.tbl2) SELECT * FROM c JOIN {M}.pred AS m", {'int2': {'tbl2'}}, [('mindsdb', ['pred'])]),
+    'model-two-versions': ("SELECT * FROM {A}.tbl1 AS t JOIN {P}.pred2.1 AS m1 JOIN {P}.pred2.2 AS m2", {'int1': {'tbl1'}}, [('proj', ['pred2', '1']), ('proj', ['pred2', '2'])]),
+    'model-version-and-plain': ("SELECT * FROM {A}.tbl1 AS t JOIN {M}.pred AS m1 JOIN {M}.pred.7 AS m2", {'int1': {'tbl1'}}, [('mindsdb', ['pred']), ('mindsdb', ['pred', '7'])]),
+    'model-join-order-expr': ("SELECT t.a, m.p FROM {A}.tbl1 AS t JOIN {M}.pred AS m ORDER BY lower(t.s), 1 LIMIT 2", {'int1': {'tbl1'}}, [('mindsdb', ['pred'])]),
     'two-models': ("SELECT * FROM {A}.tbl1 AS t JOIN {M}.pred AS m JOIN {P}.pred2 AS m2", {'int1': {'tbl1'}}, [('mindsdb', ['pred']), ('proj', ['pred2'])]),
     'select-from-model': ("SELECT p FROM {M}.pred WHERE x = 1", {}, [('mindsdb', ['pred'])]),
     'ts-model-join': ("SELECT * FROM {A}.tbl1 AS t JOIN {M}.tspred AS m WHERE t.ts > LATEST", {'int1': {'tbl1'}}, [('mindsdb', ['tspred'])]),
@@ -48,6 +53,16 @@ for _j in G_JOINS:
     for _on in G_ONS:
         for _w in G_WHERES:
             for _tg, _tail in G_TAILS:
+                GEN.append('SELECT %s FROM {A}.tbl1 AS a %s {B}.tbl2 AS b ON %s%s%s' % (_tg, _j, _on, (' WHERE ' + _w) if _w else '', _tail))
+# second generated block: select-list / tail shapes that are not plain columns (positional and expression sort keys, aliases, DISTINCT,
+# HAVING, OFFSET) on a reduced set of ON / WHERE shapes
+G_TAILS2 = [('a.x, b.y', ' ORDER BY 1'), ('a.x, b.y', ' ORDER BY lower(a.s), b.y DESC'), ('a.x, b.y', ' ORDER BY a.x + 1 DESC LIMIT 3 OFFSET 1'),
+            ('DISTINCT a.x', ''), ('a.x, max(b.y) AS m', ' GROUP BY a.x HAVING max(b.y) > 1 ORDER BY m'), ('a.x AS x1, b.y', ' ORDER BY x1 DESC, b.y'),
+            ('a.x, b.y', ' ORDER BY a.y, lower(b.s)'), ('a.*, b.y', ' LIMIT 2 OFFSET 1')]
+for _j in G_JOINS:
+    for _on in G_ONS[:4]:
+        for _w in G_WHERES[:3]:
+            for _tg, _tail in G_TAILS2:
                 GEN.append('SELECT %s FROM {A}.tbl1 AS a %s {B}.tbl2 AS b ON %s%s%s' % (_tg, _j, _on, (' WHERE ' + _w) if _w else '', _tail))
 
 
